@@ -17,7 +17,7 @@ theorem flip_counts {s : State} (h : InvW s) {p : Page} (hp : p ∈ s.pages) (f 
     ∧ (∀ n ∈ updNid s.nets p.net g, n.nCached = (updId s.pages p.id f).countP (fun q => q.net = n.id))
     ∧ (∀ n ∈ updNid s.nets p.net g, n.nRef = (updId s.pages p.id f).countP (fun q => q.net = n.id ∧ 0 < q.ref))
     ∧ (∀ n ∈ updNid s.nets p.net g, ∀ pg, (n.getStat pg).nSub
-        = (updId s.pages p.id f).countP (fun q => q.net = n.id ∧ q.pgno = pg) % 256) := by
+        = (updId s.pages p.id f).countP (fun q => q.net = n.id ∧ q.pgno = pg) % 65536) := by
   have aux2 : ∀ p' ∈ s.pages, p'.id = p.id → p' = p := fun p' hp' e => mem_unique h.pidNodup hp' hp e
   refine ⟨?_, ?_, ?_, ?_, ?_, ?_⟩
   · rw [map_id_updNid hgid]; exact h.nidNodup
